@@ -304,6 +304,9 @@ def xml_pairs():
                 return a[0][2][0]
             if f.endswith("Option::<T>::ok_or_else") and a and is_var(a[0], SOME):
                 return var(OK, a[0][2][0])
+            # base64 (third-party codec, trusted): decode(encode(x)) = Ok(x)
+            if f.endswith("base64::decode") and a and a[0][0] == "app" and (a[0][1].endswith("base64::encode") or a[0][1].endswith("encode::encode")):
+                return var(OK, a[0][2][0])
         if t[0] == "str":
             return t[1]
         if t[0] == "display" and t[1] in ("alloc::string::String", "str", "&str"):
@@ -317,13 +320,12 @@ UNSUPPORTED = {
     "rbx_types::basic_types::NumberSequence": "space-separated token stream consumed with an explicit `pieces.next()` loop",
     "rbx_types::basic_types::ColorSequence": "space-separated token stream consumed with an explicit loop",
     "rbx_types::basic_types::NumberRange": "space-separated tokens split on read",
-    "rbx_types::physical_properties::PhysicalProperties": "optional child elements selected by peeking at the next event",
     "rbx_types::font::Font": "optional child elements selected by peeking at the next event",
     "rbx_types::content::Content": "child element chosen by peeking (null / url / Object)",
     "rbx_types::content::ContentId": "child element chosen by peeking (null / url / uri)",
     "core::option::Option<rbx_types::basic_types::CFrame>": "optional child element selected by peeking",
+    "rbx_types::binary_string::BinaryString": "base64 text (third-party codec); the writer encodes the value through AsRef<[u8]>, which the field-identity check does not model",
     "rbx_types::basic_types::Color3uint8": "packed integer arithmetic (shifts / masks) on the text value",
-    "rbx_types::binary_string::BinaryString": "base64 text (third-party codec)",
     "rbx_xml::types::strings::ProtectedStringDummy": "read-only type",
     "bool": "literal `true`/`false` table (checked by the match arms directly)",
     "f32": "INF / -INF / NAN literal tables and Display/parse fall-through are C02.float's clause",
